@@ -4,6 +4,7 @@ CONSTANTS
   InvalidMult = 2
   MaxRank = 2
   Checks = 2
+  NoDeadline = FALSE
   Files = {"f1"}
   Less <- MCLess
   BehSel <- BehSelAll
